@@ -210,6 +210,10 @@ alg_wrap_wrp(const jose_hook_alg_t *alg, jose_cfg_t *cfg, json_t *jwe,
 
     uint8_t st[stl];
 
+    /* The salt we generate would be shadowed. */
+    if (shared_hdr_has(jwe, "p2s"))
+        return false;
+
     if (RAND_bytes(st, stl) <= 0)
         return false;
 
